@@ -250,17 +250,29 @@ func (r *Run) Finish() {
 			}
 			fmt.Printf("VIOLATION property=%s replay=%s key=%s :: %s\n", r.ID, v.Replay, v.Key, first)
 		}
+		runCleanup()
 		os.Exit(1)
 	}
 	if r.Evals == 0 || r.nDistinct() < 2 {
 		Harness("%s observed nothing (evaluations=%d distinct=%d)", r.ID, r.Evals, r.nDistinct())
 	}
+	runCleanup()
 	os.Exit(0)
+}
+
+// Cleanup functions run before the process exits through Finish or Harness (scratch directories).
+var Cleanup []func()
+
+func runCleanup() {
+	for _, f := range Cleanup {
+		f()
+	}
 }
 
 // Harness reports an inconclusive outcome (never a verdict) and exits 2.
 func Harness(format string, a ...any) {
 	fmt.Printf("HARNESS-ERROR "+format+"\n", a...)
+	runCleanup()
 	os.Exit(2)
 }
 
